@@ -17,3 +17,13 @@ func VerifWrapProxyProtocol(cfg *config.Config, conn net.Conn, timeout time.Dura
 	}
 	return p.wrapConnTimeout(conn, timeout), nil
 }
+
+// VerifNewProxyProtocolWrapper is newProxyProtocol(cfg); the returned function is the
+// wrapConnTimeout method of that one instance, for wrapping a sequence of connections.
+func VerifNewProxyProtocolWrapper(cfg *config.Config) (func(net.Conn, time.Duration) net.Conn, error) {
+	p, err := newProxyProtocol(cfg)
+	if err != nil {
+		return nil, err
+	}
+	return p.wrapConnTimeout, nil
+}
